@@ -18,6 +18,80 @@ CHECKS = {
             {"run": "^TestC07BackendModel$", "n": {"quick": 20000, "thorough": 150000}},
         ],
     },
+    "C09": {
+        "level": "exploration",
+        "technique": "model-based stateful property testing over algebraically constructed xxhash64 collisions; poison-after-use key buffers",
+        "design_ref": "DESIGN.md section 6 C09",
+        "text": "Key families with identical 64-bit xxhash are constructed from the hash algebra (unreachable by sampling) and "
+                "driven through generated operation histories against a reference map relaxed exactly as the statement allows "
+                "(a miss is permitted, a leak never). Every key passed to the library in any check is a scratch copy that is "
+                "overwritten after the call. Sampled search.",
+        "note": "Trusts the collision construction (asserted with xxhash.Sum64 on every family) and the reference model.",
+        "assumptions": ["collision families are asserted against github.com/cespare/xxhash/v2 before use"],
+        "jobs": [
+            {"run": "^TestC09Collisions$", "n": {"quick": 10000, "thorough": 100000}},
+        ],
+    },
+    "C10": {
+        "level": "exploration",
+        "technique": "property-based testing of expiry instants on a fake clock against the closed-form TTL/jitter band",
+        "design_ref": "DESIGN.md section 6 C10",
+        "text": "TTL magnitudes from 1ns to ~146 years (log-uniform, both signs), all jitter settings and all three backends are "
+                "generated; the expiry reported by Walk is compared with t+T exactly (jitter off) or the band "
+                "[t+T(1-J/2), t+T(1+J/2)]; the fake clock is then moved to exactly E and E+1ns to check the fresh/expired "
+                "boundary and ExpiredAt == Walk's instant. Sampled search.",
+        "note": "Trusts testing/synctest's fake clock; float slop of |T|*2^-50+2ns is allowed on band edges; instants are kept "
+                "below year 2255 (int64 unix-nanosecond range).",
+        "assumptions": ["band edges allow |T|*2^-50 + 2ns of float64 rounding"],
+        "jobs": [
+            {"run": "^TestC10ExpiryBounds$", "n": {"quick": 30000, "thorough": 200000}},
+        ],
+    },
+    "C11": {
+        "level": "exploration",
+        "technique": "model-based stateful property testing driving the real janitor goroutine with a fake clock",
+        "design_ref": "DESIGN.md section 6 C11",
+        "text": "Histories of writes (no / short / long / negative explicit TTL), deletes and clock jumps that land 1ns before, "
+                "exactly at and 1ns after janitor ticks are generated for finite and Unlimited TimeToLive on all backends; "
+                "after every jump the reference model removes exactly the entries with E!=0 and E < tick - DeleteExpiredAfter "
+                "and Len, Walk and a Read of every key are compared. Sampled search.",
+        "note": "The janitor is the library's own goroutine, scheduled by the synctest fake clock (ticks at t0+k*interval). "
+                "Expiry arises only through TTLs (ExpireAll on a scan-exempt Unlimited cache is outside the statement).",
+        "assumptions": ["no eviction limit configured", "expiry arises through TTLs only"],
+        "jobs": [
+            {"run": "^TestC11Janitor$", "n": {"quick": 10000, "thorough": 100000}},
+        ],
+    },
+    "C12": {
+        "level": "exploration",
+        "technique": "property-based testing of eviction cycles (real janitor, fake clock) against amount and rank oracles",
+        "design_ref": "DESIGN.md section 6 C12",
+        "text": "Populations, access histories (fresh reads at generated instants / with generated counts, ties included), "
+                "limits, fractions, strategies and EvictionNeeded scripts are generated; after each real cleanup cycle the "
+                "survivors are compared with: no breach => nothing removed; count breach => CountSoftLimit*(1-f) within one "
+                "entry; other breach => n*f within one; max metric(removed) <= min metric(kept); cache_evict == removed; "
+                "nothing disappears between ticks. Sampled search.",
+        "note": "Rank metric is the model's (expiry / last fresh read instant / fresh read count); never-expiring entries under "
+                "MostExpired and expired reads under LRU/LFU are excluded by construction (rank not stated).",
+        "assumptions": ["SysMemSoftLimit not exercised (it calls debug.FreeOSMemory)"],
+        "jobs": [
+            {"run": "^TestC12Eviction$", "n": {"quick": 6000, "thorough": 60000}},
+        ],
+    },
+    "C13": {
+        "level": "exploration",
+        "technique": "round-trip property testing (Dump/Restore chains) with multiset equality over Walk",
+        "design_ref": "DESIGN.md section 6 C13",
+        "text": "Entry sets of 0-300 entries with keys of differing lengths, nil/zero/populated gob-registered values and mixed "
+                "expiry are relayed through chains of 1-4 Dump/Restore hops over all ShardedMap/SyncMap pairings and "
+                "ShardedMapOf[V] for three value types; every hop must report the entry count and reproduce the Walk multiset "
+                "(key, DeepEqual value, expiry) and Read results. Sampled search.",
+        "note": "Trusts encoding/gob and reflect.DeepEqual; walk order is whatever the source produces.",
+        "assumptions": ["values come from a pool registered once per process with cache.GobRegister"],
+        "jobs": [
+            {"run": "^TestC13DumpRestore$", "n": {"quick": 5000, "thorough": 50000}},
+        ],
+    },
 }
 
 HOOK_COMMITS = ["a54259f"]
